@@ -86,7 +86,20 @@ ADDENDA = {
  "C18": dict(text=" Every loop-free graph is also run with one namespace claimed by each pair of its packages, in two import orders.", tech=""),
  "C19": dict(text=" Includes arithmetic over elements of narrow integer / float32 containers and narrow scalar fields with results beyond the element type.", tech=""),
  "C20": dict(text=" Schedules include saves that give unchanged definition names a different meaning (defaults, enum zero value, alias target, generic body).", tech=""),
+ "C11": dict(text=" Evolution faults include a breaking change below a package record that shares its simple name with an imported record.", tech=""),
+ "C16": dict(text=" A sample of cut points per stream is also read under valgrind memcheck (NDEBUG build).", tech="; valgrind memcheck on a sample"),
 }
+ADDENDA["C01"]["tech"] += "; valgrind memcheck on two value sets per protocol"
+ADDENDA["C03"]["text"] += " The C++ batch writer with empty batches is part of the chains into Python."
+ADDENDA["C08"]["text"] += " A computed-field zoo uses switch-case variables, members and elements below every kind of expression node (C++ compiled, Python computed fields called)."
+ADDENDA["C09"]["text"] += " The offending previous version is also placed among three previous versions."
+ADDENDA["C10"]["text"] += " Integer literals at the boundaries of every integer width appear in every integer position of a computed field."
+ADDENDA["C12"]["text"] += " One-shot runs of multi-version packages also run under the Go race detector, and a watcher is taken through saves that change the meaning of names and compared with a fresh process after each (history independence)."
+ADDENDA["C12"]["tech"] += "; Go race detector on one-shot runs"
+ADDENDA["C14"]["text"] += " Since the sixth round the plans are also observed as executed: generated C++ and Python (copy_to, list, Fortran order) write covering values that must decode to the same values under the reference plan."
+ADDENDA["C14"]["tech"] += "; executed layout of generated C++ and Python against the reference codec"
+ADDENDA["C15"]["text"] += " and aliases reachable only through one kind of position (map key, vector item, type argument, union case, enum base, array item)."
+ADDENDA["C18"]["text"] += " Git imports are served offline through an insteadOf rewrite: several commits of one repository in one load, cold and warm cache."
 for _pid, _a in ADDENDA.items():
     CHECKS[_pid]["text"] += _a["text"]
     CHECKS[_pid]["tech"] += _a["tech"]
